@@ -2,5 +2,18 @@
 # MANIFEST.setup_cmd: build the framework from files on disk only (offline)
 set -e
 cd /verif/harness && CARGO_NET_OFFLINE=true cargo build --offline 2>&1 | tail -3
-cd /verif/lean && lake build 2>&1 | tail -5
+cd /verif/lean
+TARGETS=$(python3 - <<'PY'
+import sys
+sys.path.insert(0, "/verif/tools")
+import props as P
+claimed = set(open("/verif/tools/claimed.txt").read().split())
+mods = []
+for pid, c in P.PROPS.items():
+    if pid in claimed:
+        mods += c["lean_props"]
+print(" ".join(sorted(set(mods))))
+PY
+)
+lake build driver $TARGETS 2>&1 | tail -5
 echo setup-ok
